@@ -28,7 +28,11 @@ Graph(m) ==
    deps |-> [i \in {t.id : t \in ts} |-> (CHOOSE t \in ts : t.id = i).deps],
    outs |-> [i \in {t.id : t \in ts} |-> (CHOOSE t \in ts : t.id = i).outs],
    ownIn |-> [i \in {t.id : t \in ts} |-> (CHOOSE t \in ts : t.id = i).ownIn],
-   ownOut |-> [i \in {t.id : t \in ts} |-> (CHOOSE t \in ts : t.id = i).ownOut]]
+   ownOut |-> [i \in {t.id : t \in ts} |-> (CHOOSE t \in ts : t.id = i).ownOut],
+   bad |-> [i \in {t.id : t \in ts} |-> (CHOOSE t \in ts : t.id = i).bad]]
+
+\* an input entry that is neither a resource nor a well-formed "<target>.output" must be refused as well
+BrokenX(G, R) == Broken(G, R) \/ \E t \in Reach(G, R) : G.bad[t] # <<>>
 
 Arrangement(m) ==
   LET ds == SeqToSet(m.dirs) IN
@@ -46,7 +50,7 @@ ResolveCase(e) ==
       req == SeqToSet(e.m.requested)
       badName == \E r \in req : r \notin CliNames(G)
       R == {Denotes(G, r) : r \in req \cap CliNames(G)}
-      expectReject == badName \/ Broken(G, R)
+      expectReject == badName \/ BrokenX(G, R)
   IN
   /\ CheckAll({"C14"}, <<"panic", e.id>>, o.verdict # "panic")
   /\ CheckAll({"C14"}, <<"verdict-or-meaning-differs-between-invocations", e.id>>, o.same)
